@@ -51,7 +51,7 @@ try:
     res["checks"] = {}
     for pid in [a.pid] + a.also.split():
         t0 = time.time()
-        r = sh("./check %s --tier %s" % (pid, a.tier), cwd=VERIF, env=dict(os.environ, VERIF_REPO=wt), timeout=3600)
+        r = sh("./check %s --tier %s" % (pid, a.tier), cwd=VERIF, env=dict(os.environ, VERIF_REPO=wt, VERIF_SCRATCH=os.environ.get("SEED_SCRATCH", "/tmp/seed-scratch"), VERIF_WORKERS=os.environ.get("SEED_WORKERS", "6")), timeout=5400)
         viol = [l for l in r.stdout.splitlines() if l.startswith("VIOLATION")]
         res["checks"][pid] = {"rc": r.returncode, "violations": len(viol), "first": viol[:2], "tail": r.stdout[-400:], "wall_s": round(time.time() - t0, 1)}
     ok = res["demo_clean_rc"] == 0 and res["apply_rc"] == 0 and res["demo_changed_rc"] != 0 and res.get("tests_rc", 0) == 0
